@@ -77,6 +77,9 @@ pub fn render(sk: Skel, v: &[usize]) -> Option<Doc> {
 
 /// `unique`: the simplest first line "v" becomes "v<p><f>" so that fields and paragraphs are distinguishable.
 pub fn render_opt(sk: Skel, v: &[usize], unique: bool) -> Option<Doc> {
+    if v.len() != menus(sk).len() {
+        return None; // not a layout vector of this skeleton (special cases carry an empty vector)
+    }
     let mut i = 0usize;
     let mut next = || {
         let x = v[i];
